@@ -121,12 +121,25 @@ func c15Matrix(rep *Report, m *model.Client, cfg engine.Config, prefix []engine.
 		}
 	}
 	defer e.Close()
+	if e.File != nil && len(txfile.VerifSnapshot(e.File).WalMapping) == 0 {
+		// a live page whose current version lives in an overwrite page (the flush of such a page takes another path)
+		for _, op := range []engine.Op{{Kind: "begin", WALLimit: 1000}, {Kind: "setfull", P: 0, Seed: 11}, {Kind: "commit"}} {
+			e.Apply(op)
+		}
+	}
 	f := e.File
 	ps := f.PageSize()
 	var livePage txfile.PageID
 	for id := range e.Committed.Pages {
 		livePage = txfile.PageID(id)
 		break
+	}
+	pagesToTry := []txfile.PageID{livePage}
+	for id := range txfile.VerifSnapshot(f).WalMapping {
+		if _, live := e.Committed.Pages[uint64(id)]; live && txfile.PageID(id) != livePage {
+			pagesToTry = append(pagesToTry, txfile.PageID(id))
+			break
+		}
 	}
 	check := func(object, state, method, impl string) {
 		var mod string
@@ -320,78 +333,86 @@ func c15Matrix(rep *Report, m *model.Client, cfg engine.Config, prefix []engine.
 		}
 	}
 	// ---- Page matrix
-	for _, ts := range []string{"rw", "ro", "done-rw"} {
-		for _, pst0 := range []string{"new", "new-dirty", "clean", "dirty", "flushed", "freed", "clean+loaded", "dirty+loaded", "flushed+loaded", "freed+loaded"} {
-			// "+loaded": the page object already has its write buffer (an earlier Load) when it reaches the state
-			pst := strings.TrimSuffix(pst0, "+loaded")
-			preload := pst != pst0
-			if ts == "ro" && pst != "clean" {
-				continue
-			}
-			for _, meth := range []string{"bytes", "load", "setbytes", "setbytes-oversize", "markdirty", "free", "flush"} {
-				before := stateBefore()
-				var tx *txfile.Tx
-				if ts == "ro" {
-					tx, _ = f.BeginReadonly()
-				} else {
-					tx, _ = f.Begin()
+	for li, lp := range pagesToTry {
+		for _, ts := range []string{"rw", "ro", "done-rw"} {
+			for _, pst0 := range []string{"new", "new-dirty", "clean", "dirty", "flushed", "freed", "clean+loaded", "dirty+loaded", "flushed+loaded", "freed+loaded"} {
+				if li > 0 {
+					if strings.HasPrefix(pst0, "new") {
+						continue
+					}
+					rep.count("page-matrix/page-with-an-overwrite-page", 1)
 				}
-				var p *txfile.Page
-				var perr error
-				switch pst {
-				case "new", "new-dirty":
-					p, perr = tx.Alloc()
-				default:
-					p, perr = tx.Page(livePage)
-				}
-				if perr != nil || p == nil {
-					tx.Close()
+				// "+loaded": the page object already has its write buffer (an earlier Load) when it reaches the state
+				pst := strings.TrimSuffix(pst0, "+loaded")
+				preload := pst != pst0
+				if ts == "ro" && pst != "clean" {
 					continue
 				}
-				if preload && ts != "ro" {
-					p.Load()
-				}
-				switch pst {
-				case "new-dirty", "dirty":
-					p.SetBytes(make([]byte, ps))
-				case "flushed":
-					if preload {
-						p.MarkDirty()
+				for _, meth := range []string{"bytes", "load", "setbytes", "setbytes-oversize", "markdirty", "free", "flush"} {
+					before := stateBefore()
+					var tx *txfile.Tx
+					if ts == "ro" {
+						tx, _ = f.BeginReadonly()
 					} else {
-						p.SetBytes(make([]byte, ps))
+						tx, _ = f.Begin()
 					}
-					p.Flush()
-				case "freed":
-					p.Free()
-				}
-				if ts == "done-rw" {
-					tx.Rollback()
-				}
-				impl := guarded(func() error {
-					switch meth {
-					case "bytes":
-						_, err := p.Bytes()
-						return err
-					case "load":
-						return p.Load()
-					case "setbytes":
-						return p.SetBytes(make([]byte, ps))
-					case "setbytes-oversize":
-						return p.SetBytes(make([]byte, ps+1))
-					case "markdirty":
-						return p.MarkDirty()
-					case "free":
-						return p.Free()
+					var p *txfile.Page
+					var perr error
+					switch pst {
+					case "new", "new-dirty":
+						p, perr = tx.Alloc()
 					default:
-						return p.Flush()
+						p, perr = tx.Page(lp)
 					}
-				})
-				check("page", ts+"/"+pst, meth, impl)
-				guarded(func() error { return tx.Close() })
-				if d := diffDigest(stateBefore(), before); d != "" {
-					rep.violate(Violation{Kind: "oracle", Sig: "misuse-changes-state/page/" + ts + "/" + pst + "/" + meth,
-						Detail: fmt.Sprintf("page %s (%s/%s) returned %s; after discarding the transaction the file state changed: %s", meth, ts, pst, impl, d),
-						Replay: c15Replay{Config: cfg, Prefix: prefix, Object: "page", State: ts + "/" + pst, Method: meth, Impl: impl}})
+					if perr != nil || p == nil {
+						tx.Close()
+						continue
+					}
+					if preload && ts != "ro" {
+						p.Load()
+					}
+					switch pst {
+					case "new-dirty", "dirty":
+						p.SetBytes(make([]byte, ps))
+					case "flushed":
+						if preload {
+							p.MarkDirty()
+						} else {
+							p.SetBytes(make([]byte, ps))
+						}
+						p.Flush()
+					case "freed":
+						p.Free()
+					}
+					if ts == "done-rw" {
+						tx.Rollback()
+					}
+					impl := guarded(func() error {
+						switch meth {
+						case "bytes":
+							_, err := p.Bytes()
+							return err
+						case "load":
+							return p.Load()
+						case "setbytes":
+							return p.SetBytes(make([]byte, ps))
+						case "setbytes-oversize":
+							return p.SetBytes(make([]byte, ps+1))
+						case "markdirty":
+							return p.MarkDirty()
+						case "free":
+							return p.Free()
+						default:
+							return p.Flush()
+						}
+					})
+					check("page", ts+"/"+pst, meth, impl)
+					guarded(func() error { return tx.Close() })
+					if d := diffDigest(stateBefore(), before); d != "" {
+						rep.violate(Violation{Kind: "oracle", Sig: "misuse-changes-state/page/" + ts + "/" + pst + "/" + meth,
+							Detail: fmt.Sprintf("page %s (%s/%s) returned %s; after discarding the transaction the file state changed: %s", meth, ts, pst, impl, d),
+							Replay: c15Replay{Config: cfg, Prefix: prefix, Object: "page", State: ts + "/" + pst, Method: meth, Impl: impl}})
+					}
 				}
 			}
 		}
